@@ -13,10 +13,10 @@ import re._parser as sre_parse
 
 from ..model import src
 from ..report import Report, key_of
-from ..terms import dag_nodes, pretty
+from ..terms import assume, dag_nodes, pretty
 from ..types import Ctx
 from .c02 import check_reprstr_levels
-from .common import TRUSTED_BASE, cfg_nodes_for, expanded_facts, subst_single_assign, where
+from .common import TRUSTED_BASE, cfg_nodes_for, expanded_facts, inl, loop_runs_to_end, loop_unconditional, subst_single_assign, where
 from .keyterm import branches, all_conj
 
 
@@ -33,31 +33,97 @@ def run(A, R: Report, thorough: bool):
     # ---- R11.1
     R.rule('R11.1', 'the traversal iterates every element of sequences and every value of mappings, recurses first, and applies the function only to values of an allowed type', floor=3)
     tparam = ftr.params[0]
+    fce = fsa.params[1]
+    cfgt = A.cfg(ftr, inline=False)
+    allnodes = list(cfgt.nodes)
+
+    def positive_kind(a_):
+        """the branch fact says: the traversed object is a sequence / a mapping"""
+        t_ = src(a_)
+        if tparam not in t_:
+            return None
+        if isinstance(a_, ast.Compare) and isinstance(a_.ops[0], (ast.In, ast.Is, ast.Eq)) and src(a_.left) == f'type({tparam})' and 'list' in t_:
+            return 'sequence'
+        if isinstance(a_, ast.Call) and src(a_.func) == 'isinstance' and len(a_.args) == 2 and src(a_.args[0]) == tparam:
+            names = {x.id for x in ast.walk(a_.args[1]) if isinstance(x, ast.Name)}
+            if 'dict' in names or 'Mapping' in names or 'MutableMapping' in names:
+                return 'mapping'
+            if 'list' in names:
+                return 'sequence'
+        if isinstance(a_, ast.Compare) and isinstance(a_.ops[0], (ast.Is, ast.Eq)) and src(a_.left) == f'type({tparam})' and src(a_.comparators[0]) == 'dict':
+            return 'mapping'
+        return None
+
+    def iteration_sources(lp):
+        """[(iterable expression, node id whose branch facts hold when it is chosen)] for a loop of _traverse"""
+        heads = [n.id for n in cfgt.nodes.values() if n.kind == 'for' and n.ast is lp]
+        if not isinstance(lp.iter, ast.Name):
+            return [(lp.iter, h) for h in heads]
+        out = []
+        for n in A.typer.own_nodes(ftr):
+            if isinstance(n, ast.Assign) and len(n.targets) == 1 and src(n.targets[0]) == lp.iter.id:
+                out += [(n.value, cn.id) for cn in cfg_nodes_for(cfgt, n)]
+        return out
+
+    found = {'sequence': [], 'mapping': []}
     loops = [n for n in A.typer.own_nodes(ftr) if isinstance(n, ast.For)]
-    seq_loop = [lp for lp in loops if src(lp.iter) == f'enumerate({tparam})']
-    map_loop = [lp for lp in loops if src(lp.iter) == f'{tparam}.items()']
-    for kind, lps in (('sequence', seq_loop), ('mapping', map_loop)):
+    for lp in loops:
+        for it, nid in iteration_sources(lp):
+            kinds = {positive_kind(a_) for a_, pol in expanded_facts(A, ftr, cfgt, nid) if pol} - {None}
+            if src(it) == f'enumerate({tparam})' and 'sequence' in kinds:
+                found['sequence'].append(lp)
+            elif src(it) == f'{tparam}.items()' and 'mapping' in kinds:
+                found['mapping'].append(lp)
+    for kind in ('sequence', 'mapping'):
         ok = False
-        for lp in lps:
+        for lp in found[kind]:
             idx, val = [src(e) for e in lp.target.elts] if isinstance(lp.target, ast.Tuple) and len(lp.target.elts) == 2 else (None, None)
             stores = [n for n in ast.walk(lp) if isinstance(n, ast.Assign) and isinstance(n.targets[0], ast.Subscript) and src(n.targets[0].value) == tparam and src(n.targets[0].slice) == idx
-                      and isinstance(n.value, ast.Call) and src(n.value.func) == fsa.params[1] and [src(a) for a in n.value.args] == [val]]
-            guards = [n for n in ast.walk(lp) if isinstance(n, ast.If) and any(s in n.body for s in stores)]
-            g_ok = bool(guards) and all(f'not {ftr.name}({val})' in src(g.test) and f'{fiv.name}({val})' in src(g.test) and isinstance(g.test, ast.BoolOp) and isinstance(g.test.op, ast.And) for g in guards)
-            uncond = all(g in lp.body for g in guards)
-            ok = bool(stores) and g_ok and uncond
-        R.check(ok, 'R11.1', f'search_and_apply._traverse: {kind} branch', key_of(kind, [src(l)[:80] for l in lps]), 'every element visited, recursed into, replaced in place when valid',
+                      and isinstance(n.value, ast.Call) and src(n.value.func) == fce and [src(a_) for a_ in n.value.args] == [val]]
+            recs = [n for n in ast.walk(lp) if isinstance(n, ast.Call) and src(n.func) == ftr.name and [src(a_) for a_ in n.args] == [val]]
+            if not stores or not recs:
+                continue
+            # every element is recursed into; the store is skipped only for containers and for values the filter rejects
+            rec_always = all(loop_unconditional(cfgt, lp, r_) for r_ in recs[:1]) and loop_runs_to_end(lp)
+            gates = [cn.id for s_ in stores for cn in cfg_nodes_for(cfgt, s_)]
+            for n in cfgt.nodes.values():
+                if n.kind == 'edge' and isinstance(n.ast, ast.Call):
+                    if src(n.ast.func) == ftr.name and [src(a_) for a_ in n.ast.args] == [val] and n.label == 'T':
+                        gates.append(n.id)
+                    if src(n.ast.func) == fiv.name and [src(a_) for a_ in n.ast.args] == [val] and n.label == 'F':
+                        gates.append(n.id)
+            heads = [n.id for n in cfgt.nodes.values() if n.kind == 'for' and n.ast is lp]
+            starts = [v for h in heads for v in cfgt.succ_by_label(h, 'loop')]
+            skip = cfgt.find_path(starts, heads, avoid=gates, no_exc_from=allnodes)
+            valid_guard = all(any(isinstance(a_, ast.Call) and src(a_.func) == fiv.name and pol for a_, pol in expanded_facts(A, ftr, cfgt, cn.id)) and
+                              any(isinstance(a_, ast.Call) and src(a_.func) == ftr.name and not pol for a_, pol in expanded_facts(A, ftr, cfgt, cn.id))
+                              for s_ in stores for cn in cfg_nodes_for(cfgt, s_))
+            ok = rec_always and skip is None and valid_guard
+        R.check(ok, 'R11.1', f'search_and_apply._traverse: {kind} branch', key_of(kind, ok), 'every element visited, recursed into, replaced in place when valid',
                 f'the {kind} branch does not visit every element / recurse / store the result back: placeholders at some depth or position stay unsubstituted', where=where(ftr))
-    # dispatch conditions
-    ifs = [n for n in ftr.node.body if isinstance(n, ast.If)]
-    seq_ok = any('list' in src(i.test) for i in ifs)
-    map_ok = any('dict' in src(i.test) for i in ifs)
-    ret_true = all(any(isinstance(s, ast.Return) and isinstance(s.value, ast.Constant) and s.value.value is True for s in i.body) for i in ifs)
-    last = ftr.node.body[-1]
-    R.check(seq_ok and map_ok and ret_true and isinstance(last, ast.Return) and isinstance(last.value, ast.Constant) and last.value.value is False, 'R11.1', 'search_and_apply._traverse: dispatch',
-            key_of('dispatch', seq_ok, map_ok, ret_true), 'containers report True (handled), leaves False', 'container / leaf dispatch changed: leaves are skipped or containers replaced wholesale', where=where(ftr))
-    text = src(fiv.node)
-    R.check('isinstance' in text and 'allowed_types' in text and 'return False' in text, 'R11.1', 'search_and_apply._is_valid', key_of('is-valid'), 'type filter honoured', 'the allowed-types filter is not applied: non-string data would be passed to the substitution', where=where(fiv))
+    # dispatch: `return True` only after a container test succeeded, `return False` only after both failed
+    rets_t = [n for n in cfgt.nodes.values() if n.kind == 'stmt' and isinstance(n.ast, ast.Return) and isinstance(n.ast.value, ast.Constant) and n.ast.value.value is True]
+    rets_f = [n for n in cfgt.nodes.values() if n.kind == 'stmt' and isinstance(n.ast, ast.Return) and isinstance(n.ast.value, ast.Constant) and n.ast.value.value is False]
+    other = [n for n in cfgt.nodes.values() if n.kind == 'stmt' and isinstance(n.ast, ast.Return) and n not in rets_t and n not in rets_f]
+    pos = {'sequence': [], 'mapping': []}
+    neg = {'sequence': [], 'mapping': []}
+    for n in cfgt.nodes.values():
+        if n.kind == 'edge':
+            kd = positive_kind(n.ast)
+            if kd:
+                (pos if n.label == 'T' else neg)[kd].append(n.id)
+    falls_off = cfgt.find_path([cfgt.entry.id], [cfgt.exit.id], avoid=[n.id for n in rets_t + rets_f + other], no_exc_from=allnodes) is not None
+    t_ok = bool(rets_t) and cfgt.find_path([cfgt.entry.id], [n.id for n in rets_t], avoid=pos['sequence'] + pos['mapping'], no_exc_from=allnodes) is None
+    f_ok = bool(rets_f) and all(cfgt.find_path([cfgt.entry.id], [n.id for n in rets_f], avoid=neg[kd], no_exc_from=allnodes) is None for kd in ('sequence', 'mapping'))
+    both = bool(pos['sequence']) and bool(pos['mapping'])
+    R.check(both and t_ok and f_ok and not other and not falls_off, 'R11.1', 'search_and_apply._traverse: dispatch',
+            key_of('dispatch', both, t_ok, f_ok, len(other), falls_off), 'containers report True (handled), leaves False', 'container / leaf dispatch changed: leaves are skipped or containers replaced wholesale', where=where(ftr))
+    vt = A.sym.func_term(fiv, None)
+    atps = (('p', 'allowed_types'), ('global', 'allowed_types'))
+    # with a type filter given and no type matching, the value is rejected
+    rej = assume(vt, lambda c: False if ((c[0] == 'cmp' and c[1] == 'Is' and c[2] in atps and c[3] == ('lit', None)) or (c[0] == 'call' and c[1] == 'any' and 'isinst' in str(c)))
+                 else (True if (c[0] == 'cmp' and c[1] == 'IsNot' and c[2] in atps and c[3] == ('lit', None)) else None))
+    R.check(rej == ('lit', False) and any(x[0] == 'isinst' for x in dag_nodes(vt)), 'R11.1', 'search_and_apply._is_valid', key_of('is-valid'), 'type filter honoured', 'the allowed-types filter is not applied: non-string data would be passed to the substitution', where=where(fiv))
     fsr = A.func('search_and_replace_placeholders')
     calls = [n for n in A.typer.own_nodes(fsr) if isinstance(n, ast.Call) and src(n.func) == 'search_and_apply']
     R.require(calls, 'anchor: search_and_apply call missing in search_and_replace_placeholders')
@@ -70,9 +136,16 @@ def run(A, R: Report, thorough: bool):
     R.require(fap is not None, 'anchor: search_and_replace_placeholders._apply missing')
     R.rule('R11.2', 'every regex substitution in _apply is reached only for strings that are not ReprStr (already substituted)', floor=1)
     cfg = A.cfg(fap)
-    subs = [n for n in A.typer.own_nodes(fap) if isinstance(n, ast.Call) and src(n.func) in ('re.subn', 're.sub')]
+    subs = []       # (call, pattern expression)
+    for n in inl(A, fap):
+        if isinstance(n, ast.Call) and src(n.func) in ('re.subn', 're.sub') and n.args:
+            subs.append((n, subst_single_assign(A, fap, n.args[0])))
+        elif isinstance(n, ast.Call) and isinstance(n.func, ast.Attribute) and n.func.attr in ('sub', 'subn'):
+            comp = subst_single_assign(A, fap, n.func.value)
+            if isinstance(comp, ast.Call) and src(comp.func) == 're.compile' and comp.args:
+                subs.append((n, subst_single_assign(A, fap, comp.args[0])))
     R.require(subs, 'anchor: re.sub/re.subn call missing in _apply')
-    for c in subs:
+    for c, _pat in subs:
         for cn in cfg_nodes_for(cfg, c):
             facts = [(src(a), pol) for a, pol in expanded_facts(A, fap, cfg, cn.id)]
             ok = any('isinstance' in t and 'ReprStr' in t and not pol for t, pol in facts)
@@ -141,9 +214,7 @@ def run(A, R: Report, thorough: bool):
 
     # ---- R11.6
     R.rule('R11.6', 'the name group of the placeholder pattern cannot run over a closing brace (lazy repeat or a class excluding `}`)', floor=1)
-    for c in subs:
-        pat = c.args[0] if c.args else None
-        pat = subst_single_assign(A, fap, pat) if pat is not None else None
+    for c, pat in subs:
         if not (isinstance(pat, ast.Constant) and isinstance(pat.value, str)):
             R.undecided('R11.6', '_apply: pattern', 'pattern is not a string literal', where=where(fap, c))
             continue
